@@ -12,6 +12,19 @@ CLAIMED = {
    note='Trusted: the pyvc VC generator and its string axioms, z3/cvc5; str.lower modelled for ASCII (precondition of letter_id_to_number, established by its callers). '
         'The label->matcher half of C14 is covered under C05/C14 layer L when built.',
    technique='contract-based deductive verification: self-generated VCs from the real AST + sidecar contracts, z3 (cvc5 fallback); native replay of counterexamples'),
+ 'C11': dict(level='proof', design='6.C11',
+   text='For all recorded histories, matchers and caps N >= 0: _get_matching (real loop, invariant over a recursive count spec + two induction lemmas) returns exactly the last min(N, total) matching messages oldest first with honest counts; '
+        'show_messages prints header, exactly those lines in order (ghost shown-trace) and the count line; list_command leaves filter, breakpoint, selection and every recorded list unchanged (frame obligations).',
+   note='Trusted: Matcher.matches / __str__ interface contracts (pure, total; per-class refinement is C05/C18), stream write = one trace entry, matcher.parse/join/simplify frame contracts, pyvc + z3. Negative caps are outside the precondition (and the property).',
+   technique='contract-based deductive verification of the real controller code: loop invariants, recursive spec functions with proved induction lemmas, frame obligations; z3'),
+ 'C16': dict(level='proof', design='6.C16',
+   text='Message.__init__ fixes the time base at the first message and stores log time minus base (shift-invariance lemma over reals); _show_message emits a separator entry iff the gap to the previously shown message exceeds one second and remembers the time shown; show_messages resets it before and after a listing, consecutive lines of one listing are separated iff their gap exceeds one second, none before the first.',
+   note='Floats as reals (A-FLOAT). The text of the time column ({:7.4f}) is an uninterpreted format function; the ms -> s conversion of the log parser belongs to C01 (not yet claimed). Live line after a listing: no obligation (DESIGN 6.C16).',
+   technique='contract-based deductive verification (ghost output trace, loop invariant of show_messages); z3'),
+ 'C06': dict(level='proof', design='6.C06',
+   text='connection_got_new_message records every message (append, earlier records kept) and writes its line exactly once iff the selected connection and the filter in force agree, else not at all; filter/breakpoint/list commands write no message line and never touch the recorded lists (frame obligations).',
+   note='Trusted: disseminator delivery (listener fan-out), Matcher.matches interface contract, stream write = one trace entry. ConnectionImpl.message -> listener hop is covered when C02/C04 are built.',
+   technique='contract-based deductive verification with ghost output trace; z3'),
 }
 
 NA_REASON = 'not yet built in this session (machinery under construction); see DESIGN.md section 6'
